@@ -8,6 +8,7 @@ from ..engine import tables
 from ..engine.cutil import Catalogue, split_args, match_paren, strip_c_comments
 from ..engine.pyindex import walk_no_nested
 from ..rules import pC02 as P
+from ..rules import sC02
 from ..rules.iface import str_template, PLACEHOLDER
 
 ID = 'C02'
@@ -605,6 +606,8 @@ def run(ctx):
     rules.append(rule_shift(ctx, cls, handlers, fw))
     # ------------------------------------------------------------------------------------------ SIB
     rules.append(P.rule_sib(ctx, 'C02-SIB'))
+    # ------------------------------------------------------------------------------------------ ZDIV (rules/sC02.py)
+    rules.append(sC02.rule_zdiv(ctx, fn, fvar, points, trees, cop, capi_dunder))
     return rules
 
 
